@@ -500,6 +500,24 @@ def bounded_numeric(seed):
                     failures.append(dict(case=dict(type=name, v=[str(c) for c in v], w=[str(c) for c in w]), what="numeric:length/normalized/angle inconsistent", **{"class": "numeric:inconsistent"}))
                 if len(samples) < 2:
                     samples.append(dict(type=name, v=[str(c) for c in v], length=L, angle=ang))
+                # a coordinate assigned after the object was hashed / measured / compared: afterwards it behaves like a fresh object with that coordinate
+                idx = rng.randrange(3)
+                newc = [c for c in v]
+                newc[idx] = newc[idx] + (T(7) if T is not Fraction else Fraction(7, 2))
+                P0 = g.Point(*[c for c in v])
+                hash(v), hash(P0), v == w, P0 == g.Point(*w), v.parallel(w), v.orthogonal(w)
+                v[idx] = newc[idx]
+                P0[idx] = newc[idx]
+                fv, fp = Vector(*newc), g.Point(*newc)
+                ev += 1
+                classes.add("assign:%s" % name)
+                try:
+                    okA = (v == fv) and hash(v) == hash(fv) and (P0 == fp) and hash(P0) == hash(fp) and abs(v.length() - fv.length()) <= 1e-12 * max(1.0, fv.length()) \
+                        and v.parallel(w) == fv.parallel(w) and v.orthogonal(w) == fv.orthogonal(w) and abs(v.angle(w) - fv.angle(w)) <= 1e-12 and len({v, fv}) == 1 and len({P0, fp}) == 1
+                except Exception as e:
+                    okA = False
+                if not okA and len(failures) < 5:
+                    failures.append(dict(case=dict(type=name, v=[str(c) for c in fv], index=idx), what="assign:after v[%d] = x the object does not behave like a fresh object with that coordinate (==, hash, length, angle, parallel, orthogonal, set)" % idx, **{"class": "assign:" + name}))
     return dict(evaluations=ev, classes=sorted(classes), failures=failures, samples=samples)
 
 
